@@ -512,6 +512,7 @@ type progCase struct {
 var linesPlain = []string{"x", "y", "x"}
 var linesCap = []string{"x 5", "y", "x 0", "x 12"}
 var linesFloatThen = []string{"v 1.5", "x", "y", "x"}
+var linesStr = []string{"s 1e+06", "s 1E+06", "s 2.5e-05", "s 7", "s 3.5", "s 5e+307", "n"}
 
 type position struct {
 	name  string
@@ -543,6 +544,13 @@ var positions = []position{
 	}},
 	{"float-metric-add-assign", linesFloatThen, func(e string) string {
 		return "gauge fm\n/^v (\\d+\\.\\d+)$/ {\n  fm = $1\n}\n/x/ {\n  fm += " + e + "\n}\n"
+	}},
+	// the expression converted to a string implicitly: concatenated with a string
+	// literal, and compared with a String-typed capture (the text of a float in
+	// exponent form, 1e+06 / 2.5e-05, is what is compared)
+	{"string-concat", linesPlain, func(e string) string { return "text t\n/x/ {\n  t = " + e + " + \" units\"\n}\n" }},
+	{"string-compare", linesStr, func(e string) string {
+		return "counter c\n/^s (\\S+)$/ {\n  $1 == " + e + " {\n    c++\n  }\n}\n"
 	}},
 	{"del-index", linesPlain, func(e string) string {
 		return "counter c by k\n/x/ {\n  c[" + e + "]++\n}\n/y/ {\n  del c[" + e + "]\n}\n"
